@@ -244,13 +244,12 @@ def runCmdFlat (s : DState) (line : String) : DState :=
   | ["so", z] =>
     let zeros := z != "0"
     if saveObjectCrash FloatIO s.vars then s.emit "crash model"
-    else if s.vars.any (fun v => !v.isStatic && saveVariable FloatIO v.val == .tooDeep) then
-      -- too_deep_save_error() in the middle of save_object_recurse: the LPC error leaves the save file alone
+    else if (saveObjectScript FloatIO s.progName zeros s.vars none).isNone then
+      -- too_deep_save_error() raised by the dry run, before the temporary is opened: no file is touched (K7 fixed)
       let s := (s.emit s!"err Mappings and/or arrays nested too deep ({maxDepth}) for save_object").emit "so -1"
-      -- the error leaves through longjmp: the stream is never closed, the temporary stays (open finding K7)
       match s.file with
-      | none => (s.emit "file none").emit "tmp-left-behind"
-      | some _ => (s.emit "file ?").emit "tmp-left-behind"
+      | none => s.emit "file none"
+      | some _ => s.emit "file ?"
     else
       let s := { s with file := some (saveFileText FloatIO s.progName zeros s.vars) }
       (s.emit "so 1").emit ("file " ++ hexOf (fileCanon s.progName s.vars zeros))
